@@ -354,13 +354,15 @@ private:
 
     ~MemorySlot() { delete symbol; }
 
+    /* the value of a slot belongs to its variable, also before the first
+     * assignment: it must never be taken as a temporary */
     explicit MemorySlot(const Symbol& s)
     : value(s)
-    , symbol(new Symbol(s)) { }
+    , symbol(new Symbol(s)) { value.to_lvalue(true); }
 
     explicit MemorySlot(Symbol&& s)
     : value(s)
-    , symbol(new Symbol(std::move(s))) { }
+    , symbol(new Symbol(std::move(s))) { value.to_lvalue(true); }
 
     explicit MemorySlot(const MemorySlot& m)
     : value(std::move(m.value.clone().to_lvalue(true)))
